@@ -526,3 +526,207 @@ func init() {
 			return sepScenario(all[i].level, all[i].separate, all[i].async, b)
 		}})
 }
+
+// ---------------------------------------------------------------------------------------------
+// The overflow policies through every asynchronous logger kind that Refresh can build (C06: the
+// statement is about "an asynchronous logger", not about one Go type; C04: Block delivers everything).
+// The disk is stalled (write gate closed), 100 raw lines fill the buffer, then a producer submits three
+// more items (raw, event, raw) while the worker may take at most one item and wait for the disk:
+//   Block          the producer waits; once the disk is back everything (103 items) is in the files;
+//   Discard        the calls return although the disk is stalled; no buffered line is ever dropped;
+//   DiscardOldest  the calls return; the three arriving items are all kept, at most 3 of the OLDEST lines go.
+// ---------------------------------------------------------------------------------------------
+
+type overflowKind struct {
+	name string
+	conf map[string]string
+}
+
+func overflowKinds() []overflowKind {
+	var out []overflowKind
+	for _, pol := range []string{"Block", "Discard", "DiscardOldest"} {
+		out = append(out,
+			overflowKind{"RollingFile+async" + pol, map[string]string{
+				"logger.root.type": "RollingFile", "logger.root.fileDir": "/logs", "logger.root.fileName": "app.log", "logger.root.rotation": "h",
+				"logger.root.async": "true", "logger.root.bufferSize": "100", "logger.root.bufferFullPolicy": pol, "logger.root.maxAge": "24", "logger.root.level": "INFO"}},
+			overflowKind{"RollingFile+separate+async" + pol, map[string]string{
+				"logger.root.type": "RollingFile", "logger.root.fileDir": "/logs", "logger.root.fileName": "app.log", "logger.root.rotation": "h", "logger.root.separate": "true",
+				"logger.root.async": "true", "logger.root.bufferSize": "100", "logger.root.bufferFullPolicy": pol, "logger.root.maxAge": "24", "logger.root.level": "INFO"}},
+			overflowKind{"AsyncLogger(" + pol + ")->File", map[string]string{
+				"appender.f.type": "File", "appender.f.fileDir": "/logs", "appender.f.fileName": "app.log",
+				"logger.root.type": "AsyncLogger", "logger.root.bufferSize": "100", "logger.root.bufferFullPolicy": pol, "logger.root.appenderRef.ref": "f", "logger.root.level": "INFO"}},
+		)
+	}
+	for _, k := range out {
+		k.conf["appender.unused.type"] = "Console" // a configuration needs an appenders section
+	}
+	return out
+}
+
+func overflowScenario(prop string, k overflowKind, b zzvrt.Bounds) *zzvrt.Scenario {
+	var errS string
+	var returned int
+	var blockedWhileStalled bool
+	return &zzvrt.Scenario{
+		Desc:   k.name,
+		Before: func() { resetAll(); errS, returned, blockedWhileStalled = "", 0, false },
+		Opts:   zzvrt.RunOpts{Bounds: b},
+		Body: func() {
+			x := zzvrt.Cur()
+			open := false
+			zzvrt.Atomic(func() {
+				log.TimeNow = func(context.Context) time.Time { return fixedT }
+				log.Stdout = &slowSink{}
+				x.FS.MkdirAll("/logs")
+				x.FS.WriteGate = func(string) bool { return open }
+				if err := log.Refresh(k.conf); err != nil {
+					errS = "refresh: " + err.Error()
+					return
+				}
+				for i := 0; i < 100; i++ {
+					rootHandle.Write([]byte(fmt.Sprintf("p%03d\n", i)))
+				}
+			})
+			if errS != "" {
+				return
+			}
+			zzvrt.GoNamed("producer", func() {
+				rootHandle.Write([]byte("a-raw-1\n"))
+				returned++
+				log.Info(context.Background(), c03Tags[0], log.String("k", "a-event-2"))
+				returned++
+				rootHandle.Write([]byte("a-raw-3\n"))
+				returned++
+			})
+			zzvrt.WaitQuiescent() // the producer is through, or waits for space; the worker waits for the disk
+			blockedWhileStalled = returned < 3
+			// explored so far: the three arrivals against the worker and the stalled disk. The rest - the disk is back, the
+			// backlog of 100 lines drains, a waiting producer finishes - runs under the default schedule only
+			zzvrt.Settle()
+			open = true
+			zzvrt.WaitUntil(func() bool { return returned == 3 })
+			log.Destroy()
+		},
+		Check: func(x *zzvrt.Exec) (string, []zzvrt.Violation) {
+			key := k.name
+			var v []zzvrt.Violation
+			add := func(p, clause, detail string) {
+				if p == prop || p == "*" {
+					v = append(v, zzvrt.Violation{Clause: clause, Key: key, Detail: detail})
+				}
+			}
+			if x.Outcome != "" {
+				add("*", "no-"+strings.SplitN(x.Outcome, ":", 2)[0], x.Outcome+" "+firstLines(x.Stack, 12))
+				return x.Outcome, v
+			}
+			if errS != "" {
+				add("*", "kind-not-instantiable", errS)
+				return errS, v
+			}
+			pol := "Block"
+			if strings.Contains(k.name, "DiscardOldest") {
+				pol = "DiscardOldest"
+			} else if strings.Contains(k.name, "Discard") {
+				pol = "Discard"
+			}
+			var sb strings.Builder
+			for _, n := range x.FS.List("/logs") {
+				content := string(x.FS.Nodes["/logs/"+n].Data)
+				wf := strings.HasPrefix(n, "app.log.wf.")
+				lines := strings.Split(strings.TrimSuffix(content, "\n"), "\n")
+				pos := map[string]int{}
+				for i, l := range lines {
+					id := l
+					if j := strings.Index(l, "k=a-event-2"); j >= 0 {
+						id = "a-event-2"
+					}
+					if _, dup := pos[id]; dup {
+						add("C04", "delivered-twice", fmt.Sprintf("%s holds %q twice", n, id))
+					}
+					pos[id] = i
+				}
+				missingP := 0
+				lastP := -1
+				for i := 0; i < 100; i++ {
+					id := fmt.Sprintf("p%03d", i)
+					if _, ok := pos[id]; !ok {
+						missingP++
+						lastP = i
+					}
+				}
+				arrivals := []string{"a-raw-1", "a-event-2", "a-raw-3"}
+				if wf {
+					arrivals = []string{"a-raw-1", "a-raw-3"} // the INFO event belongs to the other file
+				}
+				missingA := 0
+				for _, id := range arrivals {
+					if _, ok := pos[id]; !ok {
+						missingA++
+					}
+				}
+				fmt.Fprintf(&sb, "%s:-%dp-%da;", n, missingP, missingA)
+				switch pol {
+				case "Block":
+					if missingP+missingA > 0 {
+						add("C06", "block-dropped", fmt.Sprintf("Block policy: %s lacks %d buffered and %d arriving item(s) after the disk came back and Destroy returned", n, missingP, missingA))
+						add("C04", "block-lost", fmt.Sprintf("Block policy: %s lacks %d buffered and %d arriving item(s)", n, missingP, missingA))
+					}
+				case "Discard":
+					if missingP > 0 {
+						add("C06", "discard-dropped-buffered-item", fmt.Sprintf("Discard policy: %s lacks %d of the 100 lines that were already buffered (only arriving items may be dropped)", n, missingP))
+					}
+				case "DiscardOldest":
+					if missingA > 0 {
+						add("C06", "discardoldest-dropped-arriving-item", fmt.Sprintf("DiscardOldest policy: %s lacks %d arriving item(s) although 100 older lines were buffered", n, missingA))
+					}
+					if missingP > 3 || (missingP > 0 && lastP >= 4) {
+						add("C06", "discardoldest-dropped-not-oldest", fmt.Sprintf("DiscardOldest policy: %s lacks %d buffered lines, the youngest of them p%03d (three arrivals can evict at most the three oldest)", n, missingP, lastP))
+					}
+				}
+				// per-producer order of what is present (prefill and arrivals each came from one goroutine)
+				last := -1
+				for i := 0; i < 100; i++ {
+					if j, ok := pos[fmt.Sprintf("p%03d", i)]; ok {
+						if j < last {
+							add("C06", "producer-order", fmt.Sprintf("%s: p%03d is ahead of an earlier line", n, i))
+						}
+						last = j
+					}
+				}
+				last = -1
+				for _, id := range arrivals {
+					if j, ok := pos[id]; ok {
+						if j < last {
+							add("C06", "producer-order", fmt.Sprintf("%s: %s is ahead of an item the same goroutine submitted earlier", n, id))
+						}
+						last = j
+					}
+				}
+			}
+			if pol != "Block" && blockedWhileStalled {
+				add("C06", "discard-policy-waited", fmt.Sprintf("%s policy: a log call had not returned while the disk was stalled (returned %d of 3)", pol, returned))
+			}
+			if pol == "Block" && !blockedWhileStalled {
+				// 100 buffered + at most one in the worker's hands: the third arrival at the latest has to wait for space
+				add("C06", "block-did-not-wait", "Block policy: all three calls returned although the buffer was full and the disk stalled")
+			}
+			fmt.Fprintf(&sb, "blocked=%v", blockedWhileStalled)
+			return sb.String(), v
+		},
+	}
+}
+
+func init() {
+	for _, prop := range []string{"C06", "C04"} {
+		prop := prop
+		registerFamily(Fam{Prop: prop, Name: strings.ToLower(prop) + "/overflow-through-refresh", Tiers: "qt",
+			Count: func(string) int { return len(overflowKinds()) },
+			Make: func(tier string, i int) *zzvrt.Scenario {
+				b := zzvrt.Bounds{Preempt: 2, Horizon: 20000}
+				if tier == "thorough" {
+					b.Preempt = 3
+				}
+				return overflowScenario(prop, overflowKinds()[i], b)
+			}})
+	}
+}
